@@ -12,7 +12,7 @@
 -/
 import Cog.Sem.WidenId
 import Cog.Sem.DenMono
-namespace Cog.Sem
+namespace Cog.Sem.Src
 open Cog.IR Cog.Passes
 open NotRequiredFieldAsNullableType (vTy vFields fixField)
 
@@ -299,4 +299,4 @@ theorem nr_widen (S : Schemas) (hP : Plain S = true) : ∀ n t j, plainTy t = tr
     | slot _ _ => simp [plainTy] at hp
     | bad _ _ => simp [plainTy] at hp
 
-end Cog.Sem
+end Cog.Sem.Src
